@@ -128,57 +128,75 @@ def _reads(x):
         yield "ds_getitem", lambda: x[()]
 
 
+def _acl_key(x):
+    return tuple(sorted((k.name, v) for k, v in x.acl.items()))
+
+
 def closure_native(drvname, start, ro, lo, so, depth):
     drv, mc = build(drvname)
-    root = "/" + start.strip("/")
     n = mc[start] if start != "/" else mc["/"]
     n = n.restrict(read_only=ro, local_only=lo, skel_only=so)
 
-    def inside(name):
+    def inside(name, root):
         return root == "/" or name == root or name.startswith(root + "/")
 
+    EXTRA = ({"read_only": True}, {"skel_only": True}, {"local_only": True})
     seen = {}
-    frontier = [("start", n)]
-    for _ in range(depth + 1):
+    # frontier items: (chain, node, local root of the node or None)
+    frontier = [("start", n, ("/" + start.strip("/")) if lo else None)]
+    for level in range(depth + 1):
         nxt = []
-        for how, x in frontier:
-            for h2, y in _derive(x):
+        for how, x, lroot in frontier:
+            xa = x.acl
+            xlo = xa[NodeAcl.local_only]
+            cands = [(h2, y, lroot) for h2, y in _derive(x)]
+            if isinstance(x, MetadorGroup) and level < depth:
+                # a child that is restricted further (restrict() works in place on the fresh child wrapper)
+                for k in list(x.keys()):
+                    for extra in EXTRA:
+                        c = x[k].restrict(**extra)
+                        cands.append(("child+" + next(iter(extra)), c, c.name if "local_only" in extra else lroot))
+            for h2, y, yroot in cands:
                 chain = how + ">" + h2
                 if isinstance(y, Exception):
                     if h2 in ("parent", "file") or h2.startswith("abs:"):
-                        if not lo:
+                        if not xlo:
                             note(("refused without local_only", chain, str(y)[:80]))
                             return False
                         continue
-                    if h2 == "require_group" and ro:
+                    if h2 == "require_group" and xa[NodeAcl.read_only]:
                         continue  # (a mutating member: refused on read_only nodes even if the group exists)
                     note(("navigation refused", chain, type(y).__name__, str(y)[:80]))
                     return False
                 if y is None and h2 in ("get", "abs:get"):
                     continue
                 if h2 == "file":
-                    if lo:
+                    if xlo:
                         note(("local_only node yields the container", chain, type(y).__name__))
                         return False
                     continue  # (the container itself carries no node restrictions; not among the property's read_only routes)
                 if not isinstance(y, MetadorNode):
                     note(("navigation yields an unwrapped object", chain, type(y).__name__))
                     return False
-                if not _flags_ok(y, ro, lo, so):
-                    note(("flags lost", chain, y.name, {k.name: v for k, v in y.acl.items()}))
+                ya = y.acl
+                lost = [k.name for k in xa if xa[k] and not ya[k]]
+                if lost:
+                    note(("flags lost", chain, y.name, lost))
                     return False
-                if lo and not inside(y.name):
-                    note(("local_only left its subtree", chain, y.name, root))
+                if xlo and lroot is not None and not inside(y.name, lroot):
+                    note(("local_only left its subtree", chain, y.name, lroot))
                     return False
-                key = (y.name, type(y).__name__, tuple(sorted((k.name, v) for k, v in y.acl.items())), h2.split(":")[0])
+                key = (y.name, type(y).__name__, _acl_key(y), yroot, h2.split(":")[0].split("+")[0])
                 if key not in seen:
                     seen[key] = (chain, y)
-                    nxt.append((chain, y))
+                    nxt.append((chain, y, yroot))
         frontier = nxt
     # --- operations on every node reached ------------------------------------------------
     before = C.fakeh5.snapshot() if not C.REAL else None
+    any_ro = False
     for key, (chain, x) in list(seen.items()) + [(None, ("start", n))]:
-        if so:
+        xa = x.acl
+        if xa[NodeAcl.skel_only]:
             for nm, f in _reads(x):
                 try:
                     r = f()
@@ -192,7 +210,8 @@ def closure_native(drvname, start, ro, lo, so, depth):
                     continue
                 note(("skel_only node yields contents", chain, nm, repr(r)[:80]))
                 return False
-        if ro:
+        if xa[NodeAcl.read_only]:
+            any_ro = True
             for nm, f in _mutations(x):
                 try:
                     f()
@@ -202,7 +221,7 @@ def closure_native(drvname, start, ro, lo, so, depth):
                     continue  # (nothing to delete / member absent on this raw object; the snapshot is compared below)
                 note(("read_only node accepted a mutation", chain, x.name, nm))
                 return False
-    if ro and before is not None and C.fakeh5.snapshot() != before:
+    if any_ro and before is not None and C.fakeh5.snapshot() != before:
         note(("store changed through read_only nodes",))
         return False
     mc.close()
